@@ -31,8 +31,17 @@ func (cit *CallIterator) M__next__() (Object, error) {
 		return nil, err
 	}
 
-	if value == cit.sentinel {
+	// compare as python does: == on two values of a type go can't
+	// compare (a tuple) would panic
+	if ObjectIs(value, cit.sentinel) {
 		return nil, StopIteration
+	}
+	if eq, err := Eq(value, cit.sentinel); err == nil {
+		if stop, err := ObjectIsTrue(eq); err != nil {
+			return nil, err
+		} else if stop {
+			return nil, StopIteration
+		}
 	}
 
 	return value, nil
